@@ -372,6 +372,64 @@ def _still_empty_path(f, cfg, cont, site, est):
     return None
 
 
+def _d2c(chk, fb, fns):
+    """the same wrap on a plain unsigned variable: 'u - k' as a loop bound where u is an unsigned local or parameter that comes from
+    the caller's text (a conversion of parsed input) and nothing establishes u >= k: for u < k the bound is huge and a loop that
+    appends or indexes on every pass does not end within memory"""
+    n = 0
+    for f in fns:
+        cfg = f.cfg
+        for e in f.all_nodes():
+            if e["k"] != "BinaryOperator" or e["op"] != "-" or "unsigned" not in (e.get("ty") or ""):
+                continue
+            a, b = strip(kids(e)[0]), strip(kids(e)[1])
+            if not (a["k"] == "DeclRefExpr" and a["decl"]["kind"] in ("local", "param") and "unsigned" in (a["decl"].get("ty") or "") and b["k"] == "IntegerLiteral" and b["val"] >= 1):
+                continue
+            par = f.parent.get(e["id"])
+            x = e
+            while par is not None and par["k"] in ("ImplicitCastExpr", "ParenExpr"):
+                x, par = par, f.parent.get(par["id"])
+            lp = f.enclosing(e, ("ForStmt", "WhileStmt"))
+            if not (par is not None and par["k"] == "BinaryOperator" and par["op"] in ("<", "<=", "!=") and kids(par)[1] is x and lp is not None and "cond" in lp and f.contains(f.nodes[lp["cond"]], par)):
+                continue
+            n += 1
+            u, c = a["decl"]["name"], b["val"]
+
+            def est(facts, u=u, c=c):
+                for t, tr, nd in facts:
+                    if t == u and tr is True and c == 1:
+                        return True
+                    m = re.match(r"^\(%s (>|>=|!=) (\d+)\)$" % re.escape(u), t)
+                    if m and tr is True and (int(m.group(2)) + (1 if m.group(1) == ">" else 0) >= c or (m.group(1) == "!=" and m.group(2) == "0" and c == 1)):
+                        return True
+                    m = re.match(r"^\(%s (<|<=|==) (\d+)\)$" % re.escape(u), t)
+                    if m and tr is False and ((m.group(1) == "<" and int(m.group(2)) >= c) or (m.group(1) == "<=" and int(m.group(2)) + 1 >= c) or (m.group(1) == "==" and m.group(2) == "0" and c == 1)):
+                        return True
+                return False
+            ok, path = e1.guarded_by(cfg, cfg.stmt_block(e), est)
+            con = "underflow:%s-%d" % (u, c)
+            # where does u come from?
+            src = None
+            if a["decl"]["kind"] == "param":
+                src = "a parameter"
+            else:
+                for dn in f.all_nodes():
+                    if dn["k"] == "DeclStmt":
+                        for d in dn["decls"]:
+                            if d["id"] == a["decl"]["id"] and d.get("init") is not None and any(is_call(y) and y["callee"]["name"] in ("toInt", "to", "fromString", "stoi", "stoul", "atoi", "toDouble") for y in walk(d["init"])):
+                                src = "converted from the caller's text (%s)" % render(d["init"])[:50]
+            grows = any(is_call(y) and y["callee"]["name"] in ("push_back", "emplace_back", "operator[]", "at", "insert") for y in walk(f.nodes[lp["body"]])) if lp.get("body") is not None else False
+            if ok:
+                chk.proved("D2", f.key, con, f.loc(e), "'%s - %d' guarded by a test that %s >= %d" % (u, c, u, c))
+            elif src and grows and a["decl"]["kind"] == "local":
+                chk.refuted("D2", f.key, con, f.loc(e),
+                            "'%s - %d' is unsigned, bounds a loop that appends/indexes on every pass, and '%s' is %s with no test that it is at least %d: for smaller values the bound wraps to a huge number" % (u, c, u, src, c),
+                            witness={"input": "a description whose count is 0 (or negative before the conversion)"})
+            else:
+                chk.unknown("D2", f.key, con, f.loc(e), "no local guard; whether '%s' can be below %d depends on the callers" % (u, c))
+    return n
+
+
 def _loop_indexes(f, lp, ctext):
     """does the loop body index the same container (so that a wrapped bound reads out of range)?"""
     if lp is None:
@@ -779,6 +837,65 @@ def _d7(chk, fb, fns):
     return n
 
 
+def _d8(chk, fb, fns):
+    """map::at(K) raises std::out_of_range (not a library exception) when K is absent: the access is dominated by a presence test
+    of the SAME key in the same map (parameterExists(K, M), M.find(K) != M.end(), M.count(K)).  A dominating presence test of a
+    different key of that map is the recognised slip (tests one option name, reads another)"""
+    n = 0
+    for f in fns:
+        cfg = f.cfg
+        for c in f.calls():
+            if c["callee"]["name"] != "at" or "obj" not in c or "std::map" not in c["callee"].get("cls", "") or not f.args(c):
+                continue
+            M, K = render(f.obj(c)), render(f.args(c)[0])
+            n += 1
+            tested = []
+
+            def est(facts, M=M, K=K, tested=tested):
+                for t, tr, nd in facts:
+                    nd0 = strip(nd)
+                    key = None
+                    if is_call(nd0) and nd0["callee"]["name"] == "parameterExists" and len(f.args(nd0)) >= 2 and render(f.args(nd0)[1]) == M and tr is True:
+                        key = render(f.args(nd0)[0])
+                    elif is_call(nd0) and nd0["callee"]["name"] == "count" and "obj" in nd0 and render(f.obj(nd0)) == M and tr is True:
+                        key = render(f.args(nd0)[0])
+                    elif nd0 is not None and nd0["k"] == "BinaryOperator" and nd0.get("op") in ("!=", "=="):
+                        for x_, y_ in ((kids(nd0)[0], kids(nd0)[1]), (kids(nd0)[1], kids(nd0)[0])):
+                            x0 = strip(x_)
+                            if is_call(x0) and x0["callee"]["name"] == "find" and "obj" in x0 and render(f.obj(x0)) == M and render(y_) == M + ".end()" and tr is (nd0["op"] == "!="):
+                                key = render(f.args(x0)[0])
+                    if key is not None:
+                        tested.append(key)
+                        if key == K:
+                            return True
+                return False
+            ok, _ = e1.guarded_by(cfg, cfg.stmt_block(c), est)
+            con = "map-at:%s" % M
+            if ok:
+                chk.proved("D8", f.key, con, f.loc(c), "%s.at(%s) follows a presence test of that key" % (M, K))
+            else:
+                # a presence test of another key that dominates the access?
+                dom_other, _ = e1.guarded_by(cfg, cfg.stmt_block(c), lambda facts, K=K: any(k_ != K for k_ in _keys_tested(f, facts, M)))
+                if dom_other:
+                    chk.refuted("D8", f.key, con, f.loc(c),
+                                "%s.at(%s) is reached under a presence test of a different key of %s, not of %s: when only the tested key is present std::map::at raises std::out_of_range, which is not a library exception" % (M, K, M, K),
+                                witness={"input": "a map that holds the tested key only"})
+                else:
+                    chk.unknown("D8", f.key, con, f.loc(c), "no presence test of %s dominates %s.at()" % (K, M))
+    return n
+
+
+def _keys_tested(f, facts, M):
+    out = []
+    for t, tr, nd in facts:
+        nd0 = strip(nd)
+        if is_call(nd0) and nd0["callee"]["name"] == "parameterExists" and len(f.args(nd0)) >= 2 and render(f.args(nd0)[1]) == M and tr is True:
+            out.append(render(f.args(nd0)[0]))
+        elif is_call(nd0) and nd0["callee"]["name"] == "count" and "obj" in nd0 and render(f.obj(nd0)) == M and tr is True:
+            out.append(render(f.args(nd0)[0]))
+    return out
+
+
 def run(chk, fb, tier):
     chk.rule("D1", "a std::string search result on caller-supplied text is compared with npos (or is find+1) on every path before it is used as substr/erase/insert position, index, or iterator offset")
     chk.rule("D2", "'c.size() - k' (unsigned) as loop bound/index on a caller-supplied or possibly-empty member container needs a dominating non-emptiness guard")
@@ -790,6 +907,7 @@ def run(chk, fb, tier):
     _d1(chk, fb, fns)
     _d2(chk, fb, fns)
     _d2b(chk, fb, fns)
+    _d2c(chk, fb, fns)
     _d3(chk, fb, fns)
     _d4(chk, fb, fns)
     _d5(chk, fb, fns)
@@ -797,5 +915,7 @@ def run(chk, fb, tier):
     chk.floor("D6", "look-ahead sites", _d6(chk, fb, fns), 1)
     chk.rule("D7", "'*tok.getTokens().begin()', 'tok.getTokens().begin() + k', front()/back() on the token list of a tokenizer are dominated by a test that a token exists")
     chk.floor("D7", "first-element accesses on token lists", _d7(chk, fb, fns), 1)
+    chk.rule("D8", "std::map::at(K) is dominated by a presence test of the same key K in the same map")
+    chk.floor("D8", "map::at accesses", _d8(chk, fb, fns), 4)
     chk.assume("std::string::operator[](size()) and substr(size()) are defined; a count argument larger than the remainder is clamped")
     chk.assume("members listed in MAY_BE_EMPTY_MEMBERS can be left empty by a public constructor (read once by hand)")
